@@ -64,8 +64,12 @@ def hashdata(typename, kind, fresh_signature=False):
         parent = lambda ex, st, o, a: [(st, {'sig': E.VNone(), 'uid': key, 'sub': key, 'key': E.VNone()}[o.ref])]
         r.hook('pgpy.types.ParentRef', 'parent', parent)
         r.hook('pgpy.types.ParentRef', '_parent', parent)
-        r.hook('pgpy.pgp.PGPKey', 'hashdata', lambda ex, st, o, a: [(st, E.VBytes(KB if o.ref == 'key' else SB))])
-        r.hook('pgpy.pgp.PGPUID', 'hashdata', scn.const(E.VBytes(UB)))
+        # what the subject objects hash to NOW (epoch 0) and after they were changed in place (epoch 1: a second call on the same pair)
+        KB2, SB2, UB2, DOC2 = [z3.Const(n + '_AFTER_THE_SUBJECT_CHANGED', B) for n in ('KEYBODY', 'SUBKEYBODY', 'UIDBODY', 'DOC')]
+        st.pc += [z3.Length(KB2) >= 6, z3.Length(SB2) >= 6, z3.Length(KB2) < 65536, z3.Length(SB2) < 65536, z3.Length(UB2) < 2 ** 32]
+        ep = lambda st: st.ghost.get('epoch', 0)
+        r.hook('pgpy.pgp.PGPKey', 'hashdata', lambda ex, st, o, a: [(st, E.VBytes((KB2 if ep(st) else KB) if o.ref == 'key' else (SB2 if ep(st) else SB)))])
+        r.hook('pgpy.pgp.PGPUID', 'hashdata', lambda ex, st, o, a: [(st, E.VBytes(UB2 if ep(st) else UB))])
         r.hook('pgpy.pgp.PGPKey', 'is_primary', lambda ex, st, o, a: [(st, E.VBool(o.ref == 'key'))])
         r.hook('pgpy.pgp.PGPUID', 'is_uid', scn.const(E.VBool(kind != 'ua')))
         r.hook('pgpy.pgp.PGPSignature', 'signer', scn.const(E.VInt(SIGNER)))
@@ -83,9 +87,11 @@ def hashdata(typename, kind, fresh_signature=False):
             st.ghost['update_hlen'] = True
             return [(st, E.VNone())]
         r.hook('pgpy.packet.packets.SignatureV4', 'update_hlen', scn.method_hook(update_hlen))
+        docbuf = ex.new_buf(st, DOC)            # a bytearray document: the same object can be edited in place between two calls
         subject = {'uid': uid, 'ua': uid, 'key': key, 'sub': sub, 'sub-as-key': sub, 'primary-with-subkey': key,
-                   'doc': E.VBytes(DOC), 'str': E.VStr(z=DOC), 'none': E.VNone()}[kind]
+                   'doc': docbuf if typename == 'BinaryDocument' and not fresh_signature else E.VBytes(DOC), 'str': E.VStr(z=DOC), 'none': E.VNone()}[kind]
         outs = r.call(sig, [subject])
+        second = (typename == 'BinaryDocument' and kind == 'doc' and not fresh_signature) or (typename in ('Positive_Cert', 'Subkey_Binding', 'DirectlyOnKey') and kind in ('uid', 'sub', 'key'))
         no_subject_type = typename in ('Standalone', 'Timestamp')
         for pi, (s, v) in enumerate(outs):
             if no_subject_type and kind != 'none':
@@ -105,6 +111,17 @@ def hashdata(typename, kind, fresh_signature=False):
                 canon = rx[0][3] if rx else canon
             spec = spec_hash(ST, typename, kind, KB, SB, UB, DOC, canon, ver, pa, ha, HS)
             r.oblige(s, 'rfc4880-5.2.4/p%d' % pi, ex.seq(v, s) == spec)
+            if second:
+                # no hidden state: the same signature object asked again about the same subject OBJECT, whose content has changed
+                s.ghost['epoch'] = 1
+                if subject is docbuf:
+                    s.heap[docbuf.cell] = DOC2
+                spec2 = spec_hash(ST, typename, kind, KB2, SB2, UB2, DOC2, canon, ver, pa, ha, HS)
+                for qi, (s2, v2) in enumerate(ex.call_func(E.VFunc(r.node, None, cls=r.dcls, self_val=sig, mod=r.mod), [subject], {}, s, {'mod': r.mod})):
+                    if isinstance(v2, E.Raise):
+                        r.oblige(s2, 'second-call:safety(%s)/p%d.%d' % (v2.exc.split(':')[0], pi, qi), z3.BoolVal(False), v2.where)
+                        continue
+                    r.oblige(s2, 'second-call-on-the-same-subject-object-after-it-changed:rfc4880-5.2.4-of-its-present-content/p%d.%d' % (pi, qi), ex.seq(v2, s2) == spec2)
             if fresh_signature:
                 r.oblige(s, 'header-length-updated-before-hashing/p%d' % pi, z3.BoolVal(bool(s.ghost.get('update_hlen'))))
         return r.result()
